@@ -41,6 +41,9 @@ def run(prog: Program, rep, tier: str) -> None:
     from .c01 import _SubReport
     sub = _SubReport(rep, keep=("scaling-exponents", "scaled-problem-exponents", "slack-jacobian", "slack-padding", "slack-cons"))
     c04.run(prog, sub, "quick")
+    # ... and evaluates the callbacks repeatedly at perturbed points: a wrapper that writes into what a callback returned makes the
+    # second evaluation differ from the first for a problem that hands out a stored matrix, and exact derivatives are rejected
+    c04.callback_results_kept(prog, rep)
 
 
 def evaluator_passthrough(prog, rep) -> None:
